@@ -68,6 +68,7 @@ AlphaCrash ==
 SetupsAll   == {SetupNone, SetupIn, SetupAll, SetupNotMe, Setup5, Setup234}
 SetupsQuick == {SetupIn, SetupAll, Setup234}
 SetupsCrash == {SetupIn, Setup234}
+SetupsCrashQuick == {SetupIn}
 SetupsEmpty == {SetupNone}
 SetupsCover == {SetupIn, Setup234}
 SetupsAttack == {SetupNone, Setup234}
